@@ -33,6 +33,21 @@ for S3Health, replica failure kinds for DualS3, cookie lists for ConsoleAuth, ca
 a cut for SqlProxyAuth, index loss / eight producers / fetch path / decoy partitions for Log); harnesses that died on a change (exit 2)
 were made to skip steps the code no longer takes and still evaluate what was observed.
 
+Seeds come in two rounds: A/B first, then C/D from fresh agents that were told what A/B had done and asked for different mechanisms.
+Of the 68 round-2 seeds, 33 were missed by the checks as they stood (every module except Cache, Pitr, Acl, Idoc, Snapshot and
+ProxyFanout missed at least one). What was added for them, per module (details in each `NOTES.md`): Log — request-context cancellation as an upload fault,
+the stored-order conjunct of `C02_Monotone` with the trailing batch of an accepted concatenated payload, hole offsets in the fetch
+grid, deviations `RestoreCountsOrphan{,Gap,Hide}` / `NoValidateConcat` / `ReadFloorSegment`; Group — store read/write faults on
+JoinGroup, empty-subscription joins, 500 ms ticks, predicate `C15_ActsOnRestored`, single-worker (reproducible) deviation
+counterexamples; Lease — several revisions in one watch response, reload merging; Handler — an environment step inside one produce's
+lease acquisition and a stronger `Held`, per-principal ACL caches; S3Health — context-wrapped errors; Store — delete-and-recreate
+offsets, same-count growth, raw-state comparison around MCP tools; Keys — partition counts incl. the −1 sentinel; LfsUpload —
+completion-list shapes; LfsVerify — GetObject failing mid-stream; Processor — two partitions, lease loss, truncated decode, the real
+S3 decoder; SqlPrune — the real S3 lister in the loop; SqlProxyAuth — `;` in mid-text; ConsoleAuth — the session-poll endpoint;
+DualS3 and ProxyMeta — two overlapping requests; ProxyFanout — unchanged. The common causes of a miss were (a) an input or fault
+class absent from the alphabet, (b) a one-schedule-per-state cover that dropped the discriminating representative, (c) a harness
+whose own "before" read triggered the mutated write, (d) a sequential model for a path that gained request coalescing.
+
 | seed | change (first words of the author's summary) | what it needs to manifest | result of the property's check |
 |---|---|---|---|
 %s
